@@ -272,3 +272,26 @@ Print Assumptions c01_pair_init_refines_dp.
 Print Assumptions c01_pair_trace_refines_dp.
 Print Assumptions c01_prefix_pair_trace_partial.
 Print Assumptions c01_live_nonvacuous.
+
+(* FALSE of the model: the guarded predicate c01_pair_guarded (prefix property outside the class
+   c01_kf1_class) fails on a trace of the KF1 family that the classifier does not recognise: the ACK of a
+   delivered MTU probe is delayed (not lost), the probe is popped and re-segmented in a poll whose
+   transport answers Pending, and the old ACK then acknowledges the re-segmented, never-sent segment of
+   the same sequence number.  No sequence number is emitted with two lengths.  The direction is live, so
+   by c01_prefix_pair_trace_partial the matching data-path run is not guarded (d_clean flags the pop). *)
+Theorem c01_pair_guarded_refuted :
+  exists s0 : pair (CC := unit),
+    pair_new (fixed_cc 100000) (fun _ _ => tt) kf1_cfg = Some s0 /\
+    pconfig_ok kf1_cfg = true /\
+    live_run (fixed_cc 100000) SA s0 kf1_delayed_ack_ops = true /\
+    let tr := ptrace (fixed_cc 100000) s0 kf1_delayed_ack_ops in
+    let evs := pevents (fixed_cc 100000) s0 kf1_delayed_ack_ops in
+    c01_pair_ok (zip_obs kf1_delayed_ack_ops tr) = false /\ c01_kf1_class evs = false /\
+    c01_d17_class evs = false /\
+    c01_pair_guarded evs (zip_obs kf1_delayed_ack_ops tr) = false /\
+    evs = [KeEmit SA 101 528; KeEmit SA 102 991; KeDeliver SA 101 528; KeDeliver SA 102 991;
+           KeEmit SA 103 528; KeDeliver SA 103 528] /\
+    ha_len (p_rb (prun (fixed_cc 100000) s0 kf1_delayed_ack_ops)) = 2047 /\
+    ha_len (p_wa (prun (fixed_cc 100000) s0 kf1_delayed_ack_ops)) = 1980.
+Proof. exact Pair_RefineWitness.c01_pair_guarded_refuted. Qed.
+Print Assumptions c01_pair_guarded_refuted.
